@@ -218,7 +218,7 @@ package leanhelix
 //@   ensures [O19.the-trigger-is-handed-to-the-worker-unless-shutdown-was-observed] nsent == old(nsent) + 1 || done_observed(ctx)
 
 //@ func (*MainLoop).run
-//@   props C12 C14 C15 C16
+//@   props C12 C14 C15 C16 C19
 //@   safety iface
 //@   requires m.worker != nil && m.state != nil && m.state.Contexts != nil && m.worker.state == m.state && m.electionScheduler != nil && ctx != nil && cap(m.worker.workerUpdateStateChannel) > 0 && cap(m.worker.electionChannel) > 0
 //@   modifies M:S_state_HeightView:Int, state.ViewContexts.newestHvCanceledOlder, state.ViewContexts.shutdown, ghost:cancelled, ghost:nsent, ghost:lastCtxErrNil, ghost:lastSent_blockWithProof, D:primitives.BlockHeight
